@@ -130,15 +130,23 @@ def battery(conns, m, acc, rp, opid):
                 want = ("ok", [tuple(d[n] for n, _ in refs)])
                 if got != want:
                     # fall back to one reference per statement to name the failing reference precisely
+                    any_bad = False
                     for n, r in refs:
                         g1 = run_one(cur, f"select {r} as c")
                         obs.append(g1)
                         bad = g1 != ("ok", [(d[n],)])
+                        any_bad = any_bad or bad
                         cls = f"value={vkind(d[n])},prefix_defined={'yes' if has_prefix_defined(n, defs) else 'no'}"
                         acc.member("C15.value", cls, bad)
                         if bad:
                             acc.violation("C15.value", cls, {"ref": r, "cursor": cname, "defined": d, "expected": d[n], "got": g1, "after": opid}, rp)
-                    g1 = None
+                    if not any_bad:
+                        # the statement with all references is wrong although each reference alone is right: the
+                        # fault depends on the statement (its text, or what ran before it), not on one reference
+                        other = m[1] if d is m[0] else m[0]
+                        shared = sorted(n for n in defs if n in other and other[n] != d[n])
+                        cls = f"statement=all_references,same_text_ran_on_other_connection={'yes' if shared and cname != 'c0.cur1' else 'no'}"
+                        acc.violation("C15.value", cls, {"sql": batch, "cursor": cname, "defined": d, "other_connection": other, "expected": want, "got": got, "after": opid}, rp)
                 else:
                     for n, _ in refs:
                         acc.member("C15.value", f"value={vkind(d[n])},prefix_defined={'yes' if has_prefix_defined(n, defs) else 'no'}", False)
@@ -155,6 +163,24 @@ def battery(conns, m, acc, rp, opid):
                 cls = f"prefix_defined={'yes' if has_prefix_defined(n, defs) else 'no'}"
                 if not ok:
                     acc.violation("C15.undefined", cls, {"ref": "$" + n.lower(), "cursor": cname, "defined": d, "got": got, "after": opid}, rp)
+    # the same statement text on both connections, back to back: each connection answers from its own variables
+    # (anything remembered per statement text must not cross connections, nor outlive a redefinition)
+    for n in NAMES:
+        if n not in m[0] and n not in m[1]:
+            continue
+        text = f"select ${n} as st"
+        for cname, cur, d in (cursors[0], cursors[2], cursors[1]):
+            got = run_one(cur, text)
+            obs.append(got)
+            if n in d:
+                ok = got == ("ok", [(d[n],)])
+            else:
+                ok = got[0] == "err" and got[1] == "snowflake.connector.errors.ProgrammingError" and f"Session variable '${n}' does not exist" in got[4]
+            other = m[1] if d is m[0] else m[0]
+            cls = f"same_text_on_both_connections,own={'defined' if n in d else 'undefined'},other={'same' if other.get(n, None) == d.get(n, None) and (n in other) == (n in d) else ('defined' if n in other else 'undefined')}"
+            acc.member("C15.per_connection", cls, not ok)
+            if not ok:
+                acc.violation("C15.per_connection", cls, {"sql": text, "cursor": cname, "defined": d, "other_connection": other, "got": got, "after": opid}, rp)
     # positions: WHERE, IDENTIFIER(), expression value inside a product (connection 0, cursor 1)
     cur = cursors[0][1]
     d = m[0]
